@@ -332,6 +332,10 @@ class C09Mon(episodes.Monitor):
         if "reward" in pred and not base.arr_eq(ts.reward, np.asarray(pred["reward"], np.asarray(ts.reward).dtype), tol=1e-5):
             rec.fail("transition.reward", "reward differs from the rule model",
                      tag + f"env {base.short(ts.reward)} model {base.short(pred['reward'])}")
+        if "last" not in pred and hasattr(self.m, "last_given_next"):
+            lg = self.m.last_given_next(ps, a, s)
+            if lg is not None:
+                pred = dict(pred, last=bool(lg))
         if "last" in pred:
             # 'last' may be a callable of the successor state when termination depends on a stochastic part
             want_last = bool(pred["last"](s) if callable(pred["last"]) else pred["last"])
@@ -676,6 +680,10 @@ def c10_run_item(prop, item, seed, tier):
                              f"{item['batch']} keys -> {distinct} distinct instance(s) [config={label}]", case)
 
         hyp.drive({"key": episodes.keys()}, one, seed, item["n"])
+        if hasattr(model, "c10_extra"):
+            # complete enumerations owned by the model (e.g. the shipped Sudoku databases); may set ctx.exhaustive[...]
+            for sig, msg in model.c10_extra(ctx) or []:
+                ctx.fail("instance", env, sig, f"{msg} [config={label}]", {"env": env, "entry": label, "extra": True}, size=0)
     return ctx.result()
 
 
@@ -687,7 +695,10 @@ def c10_replay(prop, case):
         if case.get("stage") == "construct":
             return []
         model = base.get_model(b)
-        if case.get("single"):
+        if case.get("extra"):
+            for sig, msg in model.c10_extra(ctx) or []:
+                ctx.fail("instance", env, sig, msg, case)
+        elif case.get("single"):
             import jax.numpy as jnp
 
             s0, _ = b.reset(jnp.asarray(case["key"], jnp.uint32))
